@@ -18,7 +18,7 @@ RULE = ("random problems: (N,W) with NW<=20 (thorough 60) x covariance classes {
 ASSUMPTIONS = ["certificate derived from the update equations and the caller's tolerances (DESIGN C02), safety factor 1.5 + float term",
                "exit record (rule fired / iterations) observed by wrapping solver.check_convergence from the harness",
                "problems with cond(Theta)>1e10 are skipped and counted"]
-SHARD_TIMEOUT = {"quick": 900, "thorough": 3400}
+SHARD_TIMEOUT = {"quick": 300, "thorough": 3400}
 
 COV_KINDS = ["full", "rankdef", "diag", "corr", "samples", "toeplitz_var", "spectrum", "full_scaled"]
 LAM_KINDS = ["zero", "scalar", "scalar", "matrix_const", "matrix_rand"]
